@@ -81,6 +81,9 @@ def rand_dep(rng, ids_):
         d["stylesheet"] = (d["stylesheet"] if isinstance(d.get("stylesheet"), list) else [d["stylesheet"]] if d.get("stylesheet") else []) + [{"href": "k.css", "cross_origin": "x"}]
     if rng.random() < 0.5:
         d["head"] = [gen.TAG("title", {"k": "text", "s": ids_.next("T")}), {"k": "html", "s": "<link rel=\"x\">"}]
+        if rng.random() < 0.25:
+            # a component (tagifiable AND self-rendering, so that its markup can be asked for directly) among the head nodes
+            d["head"].append({"k": "tfobj", "ret": "list", "c": [gen.TAG("meta", attrs=[["name", {"t": "str", "s": "from-component"}]], via_fn=False)], "s": "<meta name=\"from-component\"/>"})
         if rng.random() < 0.5:
             # head tags that refer to files by relative URL (they are written as given)
             d["head"] += [gen.TAG("script", attrs=[["src", {"t": "str", "s": "init.js"}]], via_fn=False), gen.TAG("link", attrs=[["href", {"t": "str", "s": "theme/x.css"}], ["rel", {"t": "str", "s": "preload"}]], via_fn=False),
@@ -634,9 +637,14 @@ def point_mutations(rng, r):
         t = rng.choice(tags)
         mut("tag name", t, lambda x: x.__setitem__("name", x["name"] + "x"))
         mut("add_ws", t, lambda x: x.__setitem__("ws", not x["ws"]))
+        if not t.get("via_fn", True) or t.get("subclass"):
+            # (the name is written as given: names that differ in letter case, or by a blank, are different names)
+            mut("tag name letter case", t, lambda x: x.__setitem__("name", x["name"].swapcase() if x["name"].swapcase() != x["name"] else x["name"] + "X"))
         mut("attr added", t, lambda x: x["attrs"].append(["data-new", {"t": "str", "s": "1"}]))
         mut("child inserted", t, lambda x: x["c"].insert(0, {"k": "text", "s": "INS"}))
         if t["attrs"] and t["attrs"][0][1]["t"] == "str":
+            mut("attr value letter case", t, lambda x: x["attrs"][0][1].__setitem__("s", x["attrs"][0][1]["s"].swapcase() if x["attrs"][0][1]["s"].swapcase() != x["attrs"][0][1]["s"] else x["attrs"][0][1]["s"] + "q"))
+            mut("attr value trailing blank", t, lambda x: x["attrs"][0][1].__setitem__("s", x["attrs"][0][1]["s"] + " "))
             mut("attr value", t, lambda x: x["attrs"][0][1].__setitem__("s", x["attrs"][0][1]["s"] + "!"))
         tk = [x for x in tags if x["c"] and x["c"][-1]["k"] not in ("list", "none")]
         if tk:
@@ -644,6 +652,7 @@ def point_mutations(rng, r):
             mut("child removed", t3, lambda x: x["c"].pop())
     if texts:
         mut("text", rng.choice(texts), lambda x: x.__setitem__("s", x["s"] + "?"))
+        mut("text letter case / blank", rng.choice(texts), lambda x: x.__setitem__("s", x["s"].swapcase() if x["s"].swapcase() != x["s"] else x["s"] + " "))
     if deps:
         d = rng.choice(deps)
         mut("dep name", d, lambda x: x.__setitem__("name", x["name"] + "z"))
